@@ -342,3 +342,63 @@ Proof.
     + exists dl. split; [apply sub_skip; exact S|]. rewrite d1. cbn [map app].
       split; [rewrite T; exact TG|]. split; [rewrite K, d2; reflexivity|]. split; [lia|exact FF].
 Qed.
+
+Lemma queued_under_sublist : forall ans q under, sublist (queued_under ans q under) q.
+Proof.
+  intros ans q. induction q as [|id q IH]; intros under; simpl; [constructor|].
+  destruct (aget id ans) as [a|]; [|apply sub_skip; apply IH].
+  destruct (a_st a); try (apply sub_skip; apply IH).
+  destruct (zmem on under); [apply sub_keep|apply sub_skip]; apply IH.
+Qed.
+
+(* ---------------------------------------------------------------- the named sub-statements *)
+(* direct: a Call on an importedCap target is never queued *)
+Lemma order_direct : forall id e params tc mok tag s s1 o ab,
+  handle_call cfg_fixed id (TgImp e) params tc mok tag s = Ok (s1, o, ab) ->
+  (exists j, delivered id j tag s s1 o) \/ dropped id s s1 o.
+Proof.
+  intros id e params tc mok tag s s1 o ab H.
+  destruct (call_sync _ _ _ _ _ _ _ _ _ _ H) as [(j & D & _)|[(t & x & P & _)|D]]; [left; eauto|simpl in P; discriminate|right; exact D].
+Qed.
+
+(* pipelined on an answer that has returned: never queued *)
+Lemma order_pipelined_returned : forall id tg t x ta params tc mok tag s s1 o ab,
+  handle_call cfg_fixed id tg params tc mok tag s = Ok (s1, o, ab) ->
+  parse_target tg = Some (PAns t x) -> aget t (s_ans s) = Some ta -> a_ready ta = true ->
+  (exists j, delivered id j tag s s1 o) \/ dropped id s s1 o.
+Proof.
+  intros id tg t x ta params tc mok tag s s1 o ab H P Ea Er.
+  destruct (call_sync _ _ _ _ _ _ _ _ _ _ H) as [(j & D & _)|[(t' & x' & P' & (_ & _ & _ & _ & (ta' & Ea' & Er' & _) & _))|D]]; [left; eauto| |right; exact D].
+  rewrite P in P'. inversion P'; subst. rewrite Ea in Ea'. inversion Ea'; subst. congruence.
+Qed.
+
+(* pipelined on an answer that has NOT returned: never delivered by the Call's own handler -- it goes
+   to the end of the answer queue (or is dropped); the queue is drained in queue order: [drain_order] *)
+Lemma order_pipelined_pending : forall id tg t x ta params tc mok tag s s1 o ab,
+  handle_call cfg_fixed id tg params tc mok tag s = Ok (s1, o, ab) ->
+  parse_target tg = Some (PAns t x) -> aget t (s_ans s) = Some ta -> a_ready ta = false ->
+  enqueued id t x tag s s1 o \/ dropped id s s1 o.
+Proof.
+  intros id tg t x ta params tc mok tag s s1 o ab H P Ea Er.
+  destruct (call_sync _ _ _ _ _ _ _ _ _ _ H) as [(j & _ & R)|[(t' & x' & P' & Q)|D]]; [|left|right; exact D].
+  - unfold tgt_returned in R. rewrite P in R. destruct R as (ta' & Ea' & Er'). rewrite Ea in Ea'. inversion Ea'; subst. congruence.
+  - rewrite P in P'. inversion P'; subst. exact Q.
+Qed.
+
+(* not vacuous: Bootstrap; Call 1 on the bootstrap export (delivered, runs); Call 2 and 3 pipelined on
+   answer 1 (queued in this order); the server returns: 2 then 3 are delivered *)
+Definition h_order : list event :=
+  [MBootstrap 0; MCall 1 (TgImp 0) (Some (mkPayload true false (KStruct []) (Some []))) true true 11;
+   MCall 2 (TgAns 1 (Some [XField 0])) (Some (mkPayload true false (KStruct []) (Some []))) true true 22;
+   MCall 3 (TgAns 1 (Some [XField 0])) (Some (mkPayload true false (KStruct []) (Some []))) true true 33;
+   AReturn 0 (ARResults [FLocal 1])].
+Example order_reached :
+  match run_o (init true) (firstn 4 h_order) [] with
+  | Ok (s, out) => s_queue s = [2; 3] /\ delivs out = [(0, 11, 0)]
+  | _ => False
+  end /\
+  match run_o (init true) h_order [] with
+  | Ok (s, out) => s_queue s = [] /\ delivs out = [(0, 11, 0); (1, 22, 1); (1, 33, 2)]
+  | _ => False
+  end.
+Proof. vm_compute. repeat split. Qed.
